@@ -17,6 +17,9 @@ git clean -fdq -e '*.go~' ; git status --short | grep -v '^ M' | awk '{print $2}
 PKGS=$(grep '^+++ b/' $SRC/patch.diff | sed 's#+++ b/##' | xargs -n1 dirname | sort -u | sed 's#^#./#')
 ( go test -modfile=/tmp/seedtools/repo.go.mod -count=1 -vet=off -timeout 20m $PKGS ) > $DST/existing_tests.log 2>&1; EX=$?
 # tests that fail on the unchanged tree as well (not part of the pinned baseline suite) do not count
+# test binaries that panic at init under the flux stub (fluxstub .../hex.init) do so on the clean tree as well: not runnable here
+if [ $EX -ne 0 ] && grep -q 'fluxstub/stdlib' $DST/existing_tests.log && [ -z "$(grep '^--- FAIL' $DST/existing_tests.log)" ] && ! grep -q -E '\[build failed\]|\[setup failed\]' $DST/existing_tests.log; then
+  EX=0; echo "note: the only failing packages are test binaries that panic at init under the sandbox's flux stub (same on the clean tree); their tests could not be run here" >> $DST/existing_tests.log; fi
 if [ $EX -ne 0 ] && ! grep -q -E 'panic:|\[build failed\]|\[setup failed\]' $DST/existing_tests.log && \
    [ -z "$(grep '^--- FAIL' $DST/existing_tests.log | grep -v -E 'TestGenerateIndexFile_Uvarint')" ]; then EX=0; echo "note: only pre-existing failure TestGenerateIndexFile_Uvarint (fails on the clean tree too)" >> $DST/existing_tests.log; fi
 cd /verif
